@@ -6,6 +6,7 @@ from . import common, projrun
 
 FAKE_NINJA = """#!/bin/dash
 printf 'N:%s\\n' "$*" >> "$SPAWNLOG"
+if [ "${FAKE_NINJA_RC:-0}" = kill ]; then kill -KILL $$; fi
 exit ${FAKE_NINJA_RC:-0}
 """
 # logs cwd, selected exported variables and argv; fails when the command text contains FAILME
